@@ -96,6 +96,8 @@ def sweep(res, worker, specs, max_viol=5):
   """Run worker(spec) -> {'cases': [(key, nontrivial, sample)], 'viol':
   [(what, input, region)], 'notes': [...]} over specs and fill `res`."""
   stats = {}
+  # most expensive (largest) cases first: better load balance, same set
+  specs = sorted(specs, key=lambda s: -s['panel']['n_geos'])
   for out in pmap(worker, specs):
     for key, nontrivial, sample in out.get('cases', ()):
       res.case(key, nontrivial=nontrivial, sample=sample)
